@@ -103,7 +103,8 @@ fn merge_values(base: &mut Value, overlay: Value) {
             }
         }
         (Value::Array(base_array), Value::Array(overlay_array)) => {
-            let mut seen = HashSet::new();
+            // items already present in base count as seen, so nothing is appended twice
+            let mut seen: HashSet<Value> = base_array.iter().cloned().collect();
             base_array.extend(
                 overlay_array
                     .into_iter()
